@@ -42,7 +42,16 @@ type Property struct {
 
 var registry = map[string]*Property{}
 
-func register(p *Property) { registry[p.ID] = p }
+func register(p *Property) {
+	seen := map[string]bool{}
+	for _, u := range p.Units {
+		if seen[u.Name] {
+			panic("property " + p.ID + " registers two units named " + u.Name + " (the worker finds units by name)")
+		}
+		seen[u.Name] = true
+	}
+	registry[p.ID] = p
+}
 
 // Violation describes one rejected execution.
 type Violation struct {
